@@ -125,7 +125,9 @@ def check_build(ctx, spin, L, t, v, kind):
             ctx.event('identically_zero_skipped')
             continue
         with monitor.write_protected(t, v):
-            H = build(t, v, optimize=opt) if not (opt and ctx.cur[1] % 2) else build(t, v)       # default flag is optimize=True
+            # the flag in the forms callers produce: literal bool, numpy bool (result of a numpy comparison), integer
+            optv = (opt, np.bool_(opt), int(opt), np.int64(int(opt)))[(ctx.cur[1] // 2) % 4]
+            H = build(t, v, optimize=optv) if not (opt and ctx.cur[1] % 2) else build(t, v)       # default flag is optimize=True
         inv = refs.mpo_invariant(H)
         if not ctx.ok(f'{tag}.block-sparse[{"opt" if opt else "explicit"}]', inv is None, str(inv), detail):
             continue
